@@ -314,22 +314,25 @@ def _encode_rules(prog, res, f):
         dd = "updates: %s" % [show(u, names) for u in ups]
     res.ob("M-cell", "%s | cell mask = OR of 1 << (cell_count - 1 - cell_index), starting from 0" % tag, okc, dd, loc)
     okidx = False
-    dd = ""
+    dd = "" if cidx is None else "cell_index terms: %s" % ["%s * %s" % (q, show(a, names)) for a, q in cidx.items()]
+    pc_rank = {64: False, 32: False}        # rank computed as a population count instead of read from a rank table
     if cidx is not None and len(cidx) == 2 and all(q == -1 for q in cidx.values()):
         mul = [a for a in cidx if a.op == "bin" and a.args[0] == "Mul"]
-        idx = [a for a in cidx if a.op == "index"]
+        idx = [a for a in cidx if a.op == "index" or _popcount_rank(prog, f, fa, a, sig_acc, 32) is not None]
         if len(mul) == 1 and len(idx) == 1:
             m_ = mul[0]
             parts = [m_.args[1], m_.args[2]]
-            row = [p for p in parts if p.op == "index"]
+            row = [p for p in parts if p.op == "index" or _popcount_rank(prog, f, fa, p, sat_acc, 64) is not None]
             width = [p for p in parts if p.op == "call" and p.args[0] == "msg::mask_len_u32" and p.args[1][0] is sig_acc]
             if len(row) == 1 and len(width) == 1:
                 # row[0] = sat_indx[sat_id - 1] ; idx[0] = sig_indx[sig_id - 1]
                 def minus1(t):
                     la, lc = lin(t)
                     return lc == -1 and len(la) == 1
-                okidx = minus1(row[0].args[1]) and minus1(idx[0].args[1]) and ty_of(row[0].args[0]) and ty_of(row[0].args[0]).get("len") == 64 \
-                    and ty_of(idx[0].args[0]) and ty_of(idx[0].args[0]).get("len") == 32
+                pc_rank[64] = row[0].op != "index"
+                pc_rank[32] = idx[0].op != "index"
+                okidx = (pc_rank[64] or (minus1(row[0].args[1]) and ty_of(row[0].args[0]) and ty_of(row[0].args[0]).get("len") == 64)) \
+                    and (pc_rank[32] or (minus1(idx[0].args[1]) and ty_of(idx[0].args[0]) and ty_of(idx[0].args[0]).get("len") == 32))
                 dd = "cell_index = %s * %s + %s" % (show(row[0], names), show(width[0], names), show(idx[0], names))
     res.ob("M-cell", "%s | cell index = rank(satellite) * signal count + rank(signal) (row-major)" % tag, okidx, dd, loc, sample=dd)
     ok, dd = dup_guard("DuplicateSatelliteSignal", lambda bit, acc: acc is cell_acc)
@@ -337,8 +340,12 @@ def _encode_rules(prog, res, f):
     ok, dd = dup_excluded(cell_acc)
     res.ob("M-guards", "%s | a cell bit is added to the cell mask only after (bit & mask so far) == 0" % tag, ok, dd, loc)
     # --- rank tables: sat_indx[i] = counter when bit (63 - i) of the mask is set, counter += 1 (ascending loops)
-    _rank_rule(res, f, fa, iv, tag, sat_acc, 64, loc)
-    _rank_rule(res, f, fa, iv, tag, sig_acc, 32, loc)
+    for acc_, n_ in ((sat_acc, 64), (sig_acc, 32)):
+        if pc_rank[n_] and okidx:
+            res.ob("M-cell", "%s | rank of an id in the %d-bit mask = population count of (mask >> (%d - id)) - 1 (ids before it that are present)" % (tag, n_, n_), True,
+                   "closure over %s" % show(acc_, names), loc)
+        else:
+            _rank_rule(res, f, fa, iv, tag, acc_, n_, loc)
     # --- Ok returns: dominated by the passing arms of mismatch and count guards
     oks = []
     for b in sorted(f.reachable()):
@@ -372,6 +379,73 @@ def _same_value(a, b):
             x = x.args[0]
         return x
     return a is b or strip(a) is strip(b)
+
+
+def _popcount_rank(prog, f, fa, term, acc, n):
+    """term = r(id) for a closure  r = |id| (mask >> (n - id)).count_ones() as usize - 1  whose captured mask is the accumulator `acc`:
+    the number of ids before `id` that are present in the mask (id's own bit, n - id, is the lowest one counted and is taken off again).
+    Returns the id term, or None."""
+    if not (term.op == "call" and isinstance(term.args[0], str) and "{closure" in term.args[0] and term.args[0] in prog.fns and len(term.args[1]) == 2):
+        return None
+    # the closure value: one definition, capturing the mask
+    c = term.args[1][0]
+    while c.op in ("ref", "mem", "memval"):
+        c = c.args[0]
+    if c.op != "loc":
+        return None
+    defs = [(b, i, s) for b in sorted(f.reachable()) for i, s in enumerate(f.blocks[b]["stmts"])
+            if s["k"] == "assign" and s["place"]["local"] == c.args[1]]
+    if len(defs) != 1 or defs[0][2]["place"]["proj"] or defs[0][2]["rv"]["k"] != "aggregate" or defs[0][2]["rv"].get("agg") != "closure":
+        return None
+    b, i, s = defs[0]
+    clo = fa.rv_term(s["rv"], (b, i))
+    if not (clo.op == "closure" and clo.args[0] == term.args[0] and len(clo.args[1]) == 1):
+        return None
+    cap = clo.args[1][0]
+    while cap.op in ("ref", "mem", "memval"):
+        cap = cap.args[0]
+    if cap.op == "loc":
+        cap = fa.val(cap.args[1], (b, i))
+    if not _same_value(cap, acc):
+        return None
+    it = term.args[1][1]
+    if not (it.op == "tuple" and len(it.args[0]) == 1):
+        return None
+    cf = prog.fns[term.args[0]]
+    ca = FA(cf, prog)
+    rets = cf.return_blocks()
+    if len(rets) != 1 or cf.loops():
+        return None
+    la, lc = lin(ca.end_val(0, rets[0]))
+    if lc != -1 or len(la) != 1 or list(la)[0][1] != 1:
+        return None
+    x = list(la)[0][0]
+    while x.op == "cast":
+        x = x.args[1]
+    if not (x.op == "call" and x.args[0].endswith("<impl u%d>::count_ones" % n) and len(x.args[1]) == 1):
+        return None
+    sh = x.args[1][0]
+    if not (sh.op == "bin" and sh.args[0] == "Shr"):
+        return None
+    m = sh.args[1]
+    while m.op in ("ref", "mem", "memval"):
+        m = m.args[0]
+    if not (m.op == "pf" and m.args[1] == 0):
+        return None
+    root = m.args[0]
+    while root.op in ("ref", "mem", "memval"):
+        root = root.args[0]
+    if not (root.op == "arg" and root.args[1] == 1):
+        return None
+    sa, sc = lin(sh.args[2])
+    if sc != n or len(sa) != 1 or list(sa)[0][1] != -1:
+        return None
+    a = list(sa)[0][0]
+    while a.op == "cast":
+        a = a.args[1]
+    if not (a.op == "arg" and a.args[1] == 2):
+        return None
+    return it.args[0][0]
 
 
 def _rank_rule(res, f, fa, iv, tag, acc, n, loc):
